@@ -34,9 +34,11 @@ theorem realResult_class_all (neg : Bool) (v n X : Nat) (FLAG : Bool) (off : Nat
   | true =>
     rcases realResult_neg_all neg v n X off hv0 hv hhi hn19 hX with ⟨_, h2, h3⟩ | ⟨_, p, h2, h3, h4⟩
     · exact ⟨_, h2, rfl, Or.inl ⟨rfl, by simpa using h3⟩⟩
-    · refine ⟨_, h2, rfl, Or.inr ⟨rfl, or_sign_div p neg h3, ?_⟩⟩
-      simp only [if_true]
-      rw [or_sign_mod p neg h3]; exact h4
+    · refine ⟨_, h2, rfl, Or.inr ⟨rfl, or_sign_div p neg h3, ?_, ?_⟩⟩
+      · simp only [if_true]
+        rw [or_sign_mod p neg h3]; exact h4
+      · simp only [if_true]
+        intro hov; exact absurd hov (no_overflow_small v X hv)
 
 /-- out of range for a mantissa below `10^19` and a decimal exponent of magnitude `≥ 10^8` -/
 theorem out_of_range_big (v k : Nat) (FLAG : Bool) (hv0 : 0 < v) (hv : v < 10 ^ 19) (hk : 400 ≤ k) :
